@@ -152,6 +152,11 @@ class Sem:
             return g
         gor = fold(disj, self.bottom)
         gand = fold(conj, self.top)
+        if base in ('K3W', 'B3E'):
+            # weak connectives, but quantifiers / modal operators are max / min in the order F<N<T
+            # (only K3WQ generalises the weak connectives)
+            gor = fold(fam['mx'], self.bottom)
+            gand = fold(fam['mn'], self.top)
         if base == 'MH':
             def q_or(vals):
                 s = set(vals)
